@@ -139,7 +139,12 @@ def replayer(name, args, kwargs, meta):
                      "stored": stored, "outs": outs, "error": err, "expected": exp, "after": after,
                      "expected_after": exp_after}
     if name.startswith("is_zid_accepts"):
-        zid = args[0] + "#" + args[1]
+        if name == "is_zid_accepts_any_date":
+            zid, suf = args[0] + ("#000" if args[1] else "#00"), "000" if args[1] else "00"
+        elif name == "is_zid_accepts_any_suffix":
+            zid, suf = "240510#" + args[0], args[0]
+        else:
+            zid, suf = args[0] + "#" + args[1], args[1]
         # is_zid is only consulted for words the lexer produced; go through the compiler when the
         # date part is one the ZID token admits, else call the function directly
         r = _compile_zid(zid)
@@ -147,7 +152,7 @@ def replayer(name, args, kwargs, meta):
         direct = is_zid(zid)
         bad = (not direct)
         return bad, {"summary": "ZID %r (suffix of %d chars) is not recognised: is_zid=%s, compiled note zid=%r"
-                                % (zid, len(args[1]), direct, r.get("zid")),
+                                % (zid, len(suf), direct, r.get("zid")),
                      "zid": zid, "is_zid": direct, "compiled": r}
     if name == "is_zid_rejects_plain_words":
         from zorg.shared.dates import is_zid
